@@ -1,4 +1,4 @@
-"""C09 - pFBA and linear MOMA solve their documented secondary problems optimally (ROOM: not applicable).
+"""C09 - pFBA, linear MOMA and ROOM solve their documented secondary problems optimally.
 
 Real code executed: pfba, add_pfba, fix_objective_as_constraint, moma, add_moma(linear=True),
 add_absolute_expression, get_solution, Reaction.knock_out, contexts - on the LP contract stub.
@@ -8,10 +8,10 @@ from fractions import Fraction
 
 import z3
 from cobra.exceptions import OptimizationError
-from cobra.flux_analysis import moma, pfba
+from cobra.flux_analysis import moma, pfba, room
 
 from vlib import env, networks
-from vlib.lpspec import add_abs, fba_lp
+from vlib.lpspec import add_abs, exists_point, fba_lp
 from vlib.observe import observe, same
 from vlib.runner import H
 from vlib.vsym import lift, rv
@@ -181,6 +181,170 @@ def c09_moma(E, templates=(("T1", None), ("T2", 2), ("T3", 2))):
         E.prove(E.eq(_sum_abs(sol.fluxes, ids, ref.fluxes), best), "distance-minimal")
 
 
+ROOM_REFS = {      # concrete steady-state reference distributions (net fluxes in reaction order) per template
+    "T1": [(-10, 10, 10), (-4, 4, 4), (0, 0, 0)],
+    "T2": [(-10, 10, 0, 10), (-10, 4, 6, 10), (-3, 0, 3, 3)],
+    "T3": [(-10, 10, 0, 0, 10), (-6, 4, 2, 4, 6)],
+}
+
+
+def c09_room(E, templates=(("T1", 2),), directions=("max",), symbolic_reference=False, linear=False):
+    """ROOM (MILP variant) on the MILP contract of the stub: binary y_i enumerated inside the formula.
+    Oracle: the count of reactions whose flux leaves the documented band [w - delta|w| - eps, w + delta|w| + eps]
+    around the reference is minimal over all flux distributions of the (knocked-out) model."""
+    env.for_path(E)
+    tid, w = E.pick("template", templates)
+    m = networks.build(tid)
+    t = networks.T[tid]
+    obj = t["objectives"][0]
+    direction = E.pick("direction", list(directions))
+    ids = [r.id for r in m.reactions]
+    m.objective = {m.reactions.get_by_id(r): c for r, c in obj.items()}
+    m.objective_direction = direction
+    delta, eps = E.pick("delta_epsilon", [(0.03, 1e-3), (0.25, 0.5)])
+    import cobra
+    cfg = cobra.Configuration()
+    old_cfg = cfg.bounds
+    cfg.bounds = E.pick("config_bounds", [(-1000.0, 1000.0), (-5.0, 5.0)])    # configured defaults narrower than the model's bounds
+    try:
+        return _room_body(E, m, tid, w, ids, direction, delta, eps, symbolic_reference, linear)
+    finally:
+        cfg.bounds = old_cfg
+
+
+def _room_body(E, m, tid, w, ids, direction, delta, eps, symbolic_reference, linear):
+    if symbolic_reference:
+        # reference = pFBA of the wild type with symbolic bounds, taken from the stub (symbolic fluxes); the knock-out follows
+        networks.symbolic_bounds(E, m, which=ids[:w])
+        try:
+            wt = pfba(m)
+        except OptimizationError:
+            return
+        if wt.status != "optimal":
+            return
+        refkind = "pfba-of-wild-type(symbolic)"
+    else:
+        # reference = a concrete steady-state distribution; the bounds of the model ROOM is applied to are symbolic
+        k = E.choice("reference", len(ROOM_REFS[tid]))
+        vec = ROOM_REFS[tid][k]
+        import pandas as pd
+        from cobra import Solution
+        wt = Solution(objective_value=10.0, status="optimal", fluxes=pd.Series(dict(zip(ids, [float(x) for x in vec]))))
+        refkind = "concrete:%s" % (vec,)
+        networks.symbolic_bounds(E, m, which=ids[:w])
+    ko = E.choice("knock_out", len(ids) + 1, ids + ["none"])
+    if ko < len(ids):
+        m.reactions.get_by_id(ids[ko]).knock_out()
+    E.note(template=tid, direction=direction, reference=refkind, delta=delta, epsilon=eps, knocked=(ids + ["none"])[ko])
+    lp = fba_lp(m, tag="ko")
+    feasible = exists_point(E, lp, "oracle_knocked_out_feasible", tag="ko_any")
+    before = observe(m)
+    try:
+        sol = room(m, solution=wt, linear=False, delta=delta, epsilon=eps)
+        raised = None
+    except OptimizationError as e:
+        sol, raised = None, e
+    same(E, before, observe(m), "model-unchanged", what="room")
+    if not feasible:
+        E.prove(raised is not None or sol.status != "optimal", "not-optimal-when-knocked-out-model-infeasible")
+        return
+    E.prove(raised is None and sol is not None and sol.status == "optimal", "optimal-on-feasible-model", got=repr(raised))
+    if sol is None or sol.status != "optimal":
+        return
+    _feasible_obligations(E, m, sol.fluxes, "room")
+    # the band edges are computed by add_room in float arithmetic (concrete reference): they differ from the exact
+    # rational edges by rounding, so a flux within 1e-9 of an edge may count either way (1e-6 on GLPK replays)
+    tol = rv(Fraction(1, 10 ** 9)) if E.symbolic else rv(Fraction(1, 10 ** 6))
+
+    def band(rid):
+        ref = lift(wt.fluxes[rid])
+        aref = z3.If(ref >= 0, ref, -ref)
+        return (ref - rv(Fraction(delta)) * aref - rv(Fraction(eps)), ref + rv(Fraction(delta)) * aref + rv(Fraction(eps)))
+
+    def count(point, margin):
+        """number of reactions whose flux is outside the band by more than margin (negative: inside by less than)"""
+        tot = rv(0)
+        for rid in ids:
+            wl, wu = band(rid)
+            v = lift(point[rid])
+            tot = tot + z3.If(z3.Or(v > wu + margin, v < wl - margin), rv(1), rv(0))
+        return tot
+
+    lo, hi = count(sol.fluxes, tol), count(sol.fluxes, -tol)
+    E.prove(z3.And(lift(sol.objective_value) >= lo - tol, lift(sol.objective_value) <= hi + tol),
+            "objective_value=number-of-significant-changes")
+    v = lp.fresh_point(E, "fewer")
+    E.prove(z3.Not(z3.And(lp.feasible(v), count(v, -tol) < lo)), "number-of-significant-changes-minimal")
+
+
+ROOM_LINEAR_BOUNDS = {     # concrete bound vectors (reaction order); None = the template's own
+    "T1": [None, ((-10, 0), (0, 6), (0, 10)), ((-8, 8), (2, 10), (0, 10))],
+    "T2": [None, ((-10, 0), (0, 4), (0, 10), (0, 10)), ((-10, 10), (1, 10), (0, 3), (0, 8))],
+}
+
+
+def c09_room_linear(E):
+    """linear ROOM: every coefficient of the relaxed problem is a product bound x switch, so the model and the reference are
+    concrete here (choices) and the solver quantifies over every optimal solution the LP contract admits.  Oracle: the
+    documented relaxed problem (0 <= y_i <= 1, delta = epsilon = 0) built from the Python objects with its own KKT system."""
+    env.for_path(E)
+    tid = E.pick("template", ["T1", "T2"])
+    m = networks.build(tid)
+    ids = [r.id for r in m.reactions]
+    bv = ROOM_LINEAR_BOUNDS[tid][E.choice("bounds", len(ROOM_LINEAR_BOUNDS[tid]))]
+    if bv is not None:
+        for r, b in zip(m.reactions, bv):
+            r.bounds = b
+    m.objective = {m.reactions.get_by_id(r): c for r, c in networks.T[tid]["objectives"][0].items()}
+    vec = ROOM_REFS[tid][E.choice("reference", len(ROOM_REFS[tid]))]
+    import pandas as pd
+    from cobra import Solution
+    wt = Solution(objective_value=10.0, status="optimal", fluxes=pd.Series(dict(zip(ids, [float(x) for x in vec]))))
+    ko = E.choice("knock_out", len(ids) + 1, ids + ["none"])
+    if ko < len(ids):
+        m.reactions.get_by_id(ids[ko]).knock_out()
+    E.note(template=tid, bounds=str(bv), reference=str(vec), knocked=(ids + ["none"])[ko])
+    lp = fba_lp(m, tag="lroom")
+    ys = {}
+    for r in m.reactions:
+        y = "y_" + r.id
+        lp.add_var(y, 0, 1)
+        ys[r.id] = y
+        wref = vec[ids.index(r.id)]
+        lp.add_row("up_" + r.id, {r.id: 1, y: -(r.upper_bound - wref)}, None, wref)
+        lp.add_row("lo_" + r.id, {r.id: 1, y: -(r.lower_bound - wref)}, wref, None)
+    status, best, _, _ = lp.optimum(E, {y: 1 for y in ys.values()}, "min", name="oracle_linear_room")
+    before = observe(m)
+    try:
+        sol = room(m, solution=wt, linear=True)
+        raised = None
+    except OptimizationError as e:
+        sol, raised = None, e
+    same(E, before, observe(m), "model-unchanged", what="room(linear)")
+    if status != "optimal":
+        E.prove(raised is not None or sol.status != "optimal", "not-optimal-when-knocked-out-model-infeasible")
+        return
+    E.prove(raised is None and sol is not None and sol.status == "optimal", "optimal-on-feasible-model", got=repr(raised))
+    if sol is None or sol.status != "optimal":
+        return
+    _feasible_obligations(E, m, sol.fluxes, "room-linear")
+    E.prove(E.eq(sol.objective_value, best), "objective_value=minimal-relaxed-sum")
+    # the returned fluxes attain it: smallest switches compatible with them
+    tot = rv(0)
+    for r in m.reactions:
+        wref = rv(Fraction(vec[ids.index(r.id)]))
+        v = lift(sol.fluxes[r.id])
+        up, lo = lift(r.upper_bound) - wref, lift(r.lower_bound) - wref
+        need_u = z3.If(v > wref, (v - wref) / up, rv(0)) if not _is0(r.upper_bound - vec[ids.index(r.id)]) else rv(0)
+        need_l = z3.If(v < wref, (v - wref) / lo, rv(0)) if not _is0(r.lower_bound - vec[ids.index(r.id)]) else rv(0)
+        tot = tot + z3.If(need_u >= need_l, need_u, need_l)
+    E.prove(E.eq(tot, best), "relaxed-sum-at-returned-fluxes-minimal")
+
+
+def _is0(x):
+    return abs(float(x)) < 1e-12
+
+
 def c09_solved_before(E):
     SOLVED_BEFORE[0] = True
     try:
@@ -207,6 +371,14 @@ HARNESSES = [
     H("c09_moma", c09_moma, tiers=("quick",), quick=dict(max_paths=8000, time_budget=70),
       bounds="T1 all, T2 and T3 first 2 symbolic; reference: pFBA or FBA solution of the wild type (symbolic, from the "
              "stub) or default; one reaction (every choice, or none) knocked out after the reference was taken"),
+    H("c09_room", c09_room, quick=dict(max_paths=6000, time_budget=70), thorough=dict(max_paths=100000, time_budget=500),
+      bounds="ROOM, MILP variant, on the MILP contract (one binary per reaction: T1 8, T2 16 assignments enumerated in the "
+             "formula); first 2 reactions' bounds symbolic; reference = pFBA of the wild type (symbolic, from the stub) or "
+             "default; one reaction (every choice, or none) knocked out; (delta,epsilon) in {(0.03,1e-3),(0.25,0.5)}; direction max"),
+    H("c09_room_linear", c09_room_linear, quick=dict(max_paths=2000, time_budget=40), thorough=dict(max_paths=20000, time_budget=200),
+      witness_every=1,
+      bounds="ROOM, linear variant: T1/T2 with 3 concrete bound vectors each x 3 concrete references x every knock-out; the solver "
+             "quantifies over every optimal solution of the LP contract (coefficients bound x switch make symbolic bounds bilinear)"),
     H("c09_solved_before", c09_solved_before, quick=dict(max_paths=6000, time_budget=45), thorough=dict(max_paths=6000, time_budget=100),
       bounds="pfba and linear moma on T2/T3 with 2 symbolic reactions when the model was optimised before its bounds were set "
              "(solver still 'optimal' on the old problem)"),
